@@ -50,6 +50,9 @@ var digestUniverse = func() []dspec {
 		{"D3=md5-sized,leading 8 bytes of D1", remoteexecution.DigestFunction_MD5, yy.GetHashString()[:16] + strings.Repeat("a5", 8), []byte("3333"), false},
 		{"D4=sha256-sized,all zero", remoteexecution.DigestFunction_SHA256, strings.Repeat("00", 32), []byte("44444"), false},
 		{"D5=sha1-sized,all ff", remoteexecution.DigestFunction_SHA1, strings.Repeat("ff", 20), []byte("555555"), false},
+		// the selector is fed the leading 8 bytes: these two agree with D0 in the first four only
+		{"D6=sha256-sized,leading 4 bytes of D0 then 11223344", remoteexecution.DigestFunction_SHA256, x.GetHashString()[:8] + "11223344" + strings.Repeat("6b", 24), []byte("6666666"), false},
+		{"D7=sha256-sized,leading 4 bytes of D0 then eeddccbb", remoteexecution.DigestFunction_SHA256, x.GetHashString()[:8] + "eeddccbb" + strings.Repeat("7c", 24), []byte("77777777"), false},
 	}
 }()
 
@@ -78,7 +81,7 @@ type udig struct {
 	Instance string `json:"instance"`
 }
 
-// FindMissing universes: the 6 digests under each single instance name, and a
+// FindMissing universes: the 8 digests under each single instance name, and a
 // mixed universe where equal hashes occur under several instance names.
 func fmUniverses(thorough bool) [][]udig {
 	var out [][]udig
